@@ -19,7 +19,7 @@ import numpy as np
 FAMILIES = ["grid", "corenet", "interacting", "spatial", "resistive", "rp",
             "rp_lines", "crp_jrp", "visibility", "surrogates", "funcnet",
             "climate", "rp_twins", "isrn", "big_layouts", "funcnet_knn",
-            "resistive_large"]
+            "resistive_large", "resized"]
 
 META = dict(
     flavour="asanrec",
@@ -34,7 +34,7 @@ META = dict(
     technique="compiler sanitizers (ASan+UBSan) on an instrumented rebuild, "
               "hostile-shape workload through the public API",
     rule=("cases: every public entry point that reaches an _ext kernel "
-          "(17 families, one process each; the 15th repeats the pointer-"
+          "(18 families, one process each; the 15th repeats the pointer-"
           "passing entry points with inputs of KiB..MiB size in Fortran, "
           "transposed, strided and negative-stride layouts, where freed "
           "temporaries are no longer hidden by NumPy's small-block cache) x shapes with every dimension in "
@@ -473,6 +473,43 @@ def fam_resistive(ctx):
                            lambda mk=mk: (
                                mk().diameter_effective_resistance(),
                                mk().average_effective_resistance()))
+        # an object whose adjacency was replaced by one of another size
+        # through the (inherited) public setter, and node indices just
+        # outside the network: refused or answered, never read past the
+        # arrays
+        if n >= 3:
+            for grow in (2, -1):
+                def t(R=R, n=n, grow=grow):
+                    net = ResNetwork(R, silence_level=3)
+                    m = n + grow
+                    net.adjacency = np.ones((m, m), dtype=int) - np.eye(
+                        m, dtype=int)
+                    out = []
+                    for f in (lambda: net.vertex_current_flow_betweenness(1),
+                              lambda: net.vertex_current_flow_betweenness(
+                                  m - 1),
+                              net.edge_current_flow_betweenness,
+                              lambda: net.effective_resistance(0, m - 1)):
+                        try:
+                            out.append(np.shape(f()))
+                        except Exception as e:  # noqa: a refusal is fine
+                            out.append(type(e).__name__)
+                    return out
+                yield (f"ResNetwork.vertex_current_flow_betweenness|"
+                       f"adjacency-resized{grow:+d},n={n},p={p}", t)
+
+            def t2(R=R, n=n):
+                net = ResNetwork(R, silence_level=3)
+                out = []
+                for i in (n, n + 3, -1, -n - 1):
+                    try:
+                        out.append(float(
+                            net.vertex_current_flow_betweenness(i)))
+                    except Exception as e:  # noqa
+                        out.append(type(e).__name__)
+                return out
+            yield (f"ResNetwork.vertex_current_flow_betweenness|"
+                   f"node-index-outside,n={n},p={p}", t2)
         # a dense symmetrised matrix as it comes (diagonal entries included:
         # the constructor accepts them)
         if n >= 2:
@@ -524,6 +561,76 @@ def fam_resistive_large(ctx):
                        mk().effective_resistance(0, n - 1),
                        mk().effective_resistance_closeness_centrality(1)
                        if n <= 220 else None))
+
+
+def fam_resized(ctx):
+    """Objects of network subclasses whose adjacency was replaced by a
+    matrix of another size through the inherited public setter: every
+    parameter-free public method is then asked.  Refusals (exceptions) are
+    fine, reading past the arrays the subclass keeps (grid, similarity,
+    distances, recurrence matrix, ...) is not."""
+    import inspect
+    from pyunicorn.core import (GeoNetwork, GeoGrid, SpatialNetwork, Grid,
+                                InteractingNetworks)
+    from pyunicorn.timeseries import RecurrenceNetwork, VisibilityGraph
+    import pyunicorn.climate as C
+    r = ctx.rng("resized")
+    n = 7
+    lat, lon = r.uniform(-70, 70, n), r.uniform(0, 300, n)
+    A0 = sym_adj(r, n, 0.5)
+    x = r.normal(size=40)
+    S = np.abs(np.corrcoef(r.normal(size=(n, 30))))
+
+    makers = {
+        "GeoNetwork": lambda: GeoNetwork(
+            GeoGrid(np.arange(2.), lat, lon, silence_level=3), adjacency=A0,
+            silence_level=3),
+        "SpatialNetwork": lambda: SpatialNetwork(
+            Grid(np.arange(2), r.normal(size=(2, n)), silence_level=3),
+            adjacency=A0, silence_level=3),
+        "InteractingNetworks": lambda: InteractingNetworks(
+            adjacency=A0, silence_level=3),
+        "ClimateNetwork": lambda: C.ClimateNetwork(
+            GeoGrid(np.arange(2.), lat, lon, silence_level=3), S,
+            threshold=0.2, silence_level=3),
+        "RecurrenceNetwork": lambda: RecurrenceNetwork(
+            x[:n + 5], threshold=0.8, silence_level=3),
+        "VisibilityGraph": lambda: VisibilityGraph(x[:n + 5],
+                                                   silence_level=3),
+    }
+    deny = ("save", "Load", "plot", "set_", "randomly_", "clear", "copy")
+    for cname, mk in makers.items():
+        for grow in (3, -2):
+            def t(mk=mk, grow=grow):
+                with warnings.catch_warnings():
+                    warnings.simplefilter("ignore")
+                    o = mk()
+                    m = int(o.N) + grow
+                    o.adjacency = np.ones((m, m), dtype=int) - np.eye(
+                        m, dtype=int)
+                    done = 0
+                    for name in sorted(dir(type(o))):
+                        if name.startswith("_") or \
+                                any(name.startswith(d) for d in deny):
+                            continue
+                        f = getattr(o, name, None)
+                        if not callable(f):
+                            continue
+                        try:
+                            sig = inspect.signature(f)
+                        except (TypeError, ValueError):
+                            continue
+                        if any(p_.default is p_.empty and p_.kind in (
+                                p_.POSITIONAL_OR_KEYWORD, p_.POSITIONAL_ONLY)
+                               for p_ in sig.parameters.values()):
+                            continue
+                        try:
+                            f()
+                        except Exception:  # noqa: a refusal is fine
+                            pass
+                        done += 1
+                    return done
+            yield f"{cname}.<all queries>|adjacency-resized{grow:+d}", t
 
 
 def _series(ctx, tag, lens=None, dims=(1, 2, 3)):
@@ -1210,6 +1317,7 @@ def fam_big_layouts(ctx):
 
 
 FAM_FUNCS = dict(big_layouts=fam_big_layouts,
+                 resized=fam_resized,
                  resistive_large=fam_resistive_large,
                  funcnet_knn=lambda ctx: fam_funcnet(ctx, part=1),
                  grid=fam_grid, corenet=fam_corenet,
